@@ -49,8 +49,14 @@ def canon(x):
             if f.name in POS:
                 continue
             items.append((f.name, canon(getattr(x, f.name))))
-        if getattr(x, 'is_implicit_role', False):
-            items.append(('is_implicit_role', True))
+        # attributes the constructor attaches outside the dataclass fields (is_implicit_role, _right_condition, …)
+        names = {f.name for f in dataclasses.fields(x)}
+        for k, v in sorted(vars(x).items()):
+            if k in names or k in POS or k == '_hr_sorted':
+                continue
+            if v is None or v is False:
+                continue
+            items.append((k, canon(v)))
         return (type(x).__name__,) + tuple(items)
     if isinstance(x, (list, tuple)):
         return ('list',) + tuple(canon(y) for y in x)
@@ -86,7 +92,7 @@ def first_diff(a, b, path=''):
     return (path, _short(a), _short(b))
 
 
-def _short(x, n=160):
+def _short(x, n=320):
     s = repr(x)
     return s if len(s) <= n else s[:n] + '…'
 
